@@ -5,6 +5,7 @@ import ErgoProofs.Lemmas.PathThm
 import ErgoProofs.Lemmas.ReachInv
 import ErgoProofs.Lemmas.PropsAux
 import ErgoProofs.Lemmas.UrlThm
+import ErgoProofs.Lemmas.StampFree
 namespace Ergo
 
 /-- Go's Clean puts every surviving ".." in front: a cleaned relative path is k × ".." followed by plain names -/
@@ -76,5 +77,14 @@ theorem C20_file_url_is_one_token (bs : Url.Bytes) :
 /-- … from which the path is recovered exactly: different paths have different URLs -/
 theorem C20_file_url_roundtrip (bs : Url.Bytes) : Url.unescape (Url.escapePath bs) = some bs :=
   Url.unescape_escapePath bs
+
+/-- the results attached to a task, their evidence and their order follow from the order of the lines, not from their stamps: none is dropped
+    because its stamp is not later than another one -/
+theorem C20_results_follow_line_order_not_stamps {l l' : List Event} (h : SameLines l l') {g g' : Graph}
+    (hr : replay l = .ok g) (hr' : replay l' = .ok g') (id : Id) :
+    (g.find? id).map (fun t => t.results.map fun r => (r.summary, r.path, r.sha, r.mtime, r.git)) =
+    (g'.find? id).map (fun t => t.results.map fun r => (r.summary, r.path, r.sha, r.mtime, r.git)) := by
+  have := congrArg (Option.map fun t : Task => t.results.map fun r => (r.summary, r.path, r.sha, r.mtime, r.git)) ((stamp_free_items h hr hr').1 id)
+  simpa [Option.map_map, Function.comp_def, Task.untimed, List.map_map] using this
 
 end Ergo
